@@ -400,7 +400,7 @@ def engine_sim(prop, tier, seed, work):
                 real[cur].append(ev)
         same = order = div = 0
         for sid, hist in preds.items():
-            verdict, idx, detail = model_scn.compare(hist, real.get(sid, []))
+            verdict, idx, detail = model_scn.compare(hist, real.get(sid, []), model_scn.timer_keys_of(hist))
             if verdict == "same":
                 same += 1
             elif verdict in ("order", "timing"):
